@@ -269,7 +269,7 @@ def run(ctx, proofs):
         elif proofs["failures"]:
             ctx.violation("proof obligations of C14 no longer check: " + "; ".join(proofs["failures"])[:400],
                           {"broken": "props/C14.v", "failures": proofs["failures"]}, no_input=True)
-    need = [f for f in propeng.FEATURES if f != "dimension_with_value_claim_on_a_non_literal"]
+    need = [f for f in propeng.FEATURES if f not in ("dimension_with_value_claim_on_a_non_literal", "lookalike_pair_one_constant_one_not")]
     missing = [f for f in need if not features.get(f)]
     if missing:
         ctx.violation("degenerate exploration: features named in the rule text were never produced in this run: %s" % ", ".join(missing),
